@@ -61,3 +61,146 @@ V('C06', 'distinct-passes-through', M, MM + '__infer_oper_call',
 # negative control
 V('C06', 'neg-rename-local', K, KM + '__infer_oper_call',
   '_lower, upper = _card_to_bounds(min_cardinality(cards))', '_l, upper = _card_to_bounds(min_cardinality(cards))', None)
+
+# ---- R6 bound facts under assumptions --------------------------------------
+V('C06', 'offset-keeps-lower', K, KM + '__infer_select_stmt',
+  '''    if ir.offset is not None:
+        stmt_card = _bounds_to_card(
+            CB_ZERO, _card_to_bounds(stmt_card).upper)''', '''    if ir.offset is not None:
+        stmt_card = _bounds_to_card(
+            _card_to_bounds(stmt_card).lower, _card_to_bounds(stmt_card).upper)''',
+  'C06.R6', 'select:offset')
+V('C06', 'limit-nonconst-keeps-lower', K, KM + '__infer_select_stmt',
+  '''            not isinstance(ir.limit.expr, irast.IntegerConstant)
+            or ir.limit.expr.value == '0\'''', '''            isinstance(ir.limit.expr, irast.IntegerConstant)
+            and ir.limit.expr.value == '0\'''', 'C06.R6', 'select:limit-not-constant')
+V('C06', 'for-iterator-ignored', K, KM + '__infer_select_stmt',
+  '''    if ir.iterator_stmt:
+        stmt_card = cartesian_cardinality((stmt_card, iter_card))
+''', '', 'C06.R6', 'select:iterator')
+V('C06', 'filter-keeps-lower', K, KM + '_infer_stmt_cardinality',
+  'result_card = cartesian_cardinality([result_card, AT_MOST_ONE])', 'pass', 'C06.R6', 'stmt:filter')
+V('C06', 'filter-narrows-bags', K, KM + '_infer_stmt_cardinality',
+  'if result_mult.is_unique():', 'if result_mult is not None:', 'C06.R6', 'filter-narrowing-needs-unique')
+V('C06', 'insert-unless-conflict-one', K, KM + '__infer_insert_stmt',
+  '    if not ir.on_conflict:\n        return ONE', '    if not ir.on_conflict or not ir.on_conflict.else_ir:\n        return ONE',
+  'C06.R6', 'insert:unless-conflict')
+V('C06', 'on-conflict-base-one', K, KM + '_infer_on_conflict_cardinality',
+  '    card = AT_MOST_ONE\n', '    card = ONE\n', 'C06.R6', 'on-conflict:base')
+V('C06', 'json-null-ignored', K, KM + '__infer_typecast',
+  'typeutils.is_json(ir.from_type)\n        and not', 'typeutils.is_json(ir.to_type)\n        and not', 'C06.R6', 'typecast:json-null', count=1)
+V('C06', 'optional-param-one', K, KM + '__infer_param',
+  'return ONE if ir.required else AT_MOST_ONE', 'return ONE', 'C06.R6', 'param:optional')
+V('C06', 'const-set-one', K, KM + '__infer_const_set',
+  'return ONE if len(ir.elements) == 1 else AT_LEAST_ONE', 'return ONE if len(ir.elements) == 1 else ONE', 'C06.R6', 'const-set:several')
+V('C06', 'setof-function-optional', K, KM + '_typemod_to_card',
+  '''        MANY if typemod is qltypes.TypeModifier.SetOfType else
+        AT_MOST_ONE if typemod is qltypes.TypeModifier.OptionalType else''', '''        AT_MOST_ONE if typemod is qltypes.TypeModifier.SetOfType else
+        MANY if typemod is qltypes.TypeModifier.OptionalType else''', 'C06.R6', 'typemod:set-of')
+V('C06', 'group-at-least-one', K, KM + '__infer_group_stmt',
+  '    return MANY', '    return AT_LEAST_ONE', 'C06.R6', '__infer_group_stmt:group')
+V('C06', 'filter-clause-always-narrows', K, KM + '_analyse_filter_clause',
+  '    else:\n        return result_card', '    else:\n        return AT_MOST_ONE', 'C06.R6', 'filter-clause:needs-exclusive')
+V('C06', 'func-lower-one', K, KM + '__infer_func_call',
+  "            CB_ONE if ir.func_shortname == sn.QualName('std', 'assert_exists')\n            else ret_lower_bound",
+  "            CB_ONE if ir.func_shortname != sn.QualName('std', 'assert_exists')\n            else ret_lower_bound", 'C06.R6', 'func:declared-lower')
+V('C06', 'func-force-multi-dropped', K, KM + '__infer_func_call',
+  'upper = (CB_MANY if force_multi\n                 else max(arg_upper)', 'upper = (CB_ONE if force_multi\n                 else max(arg_upper)', 'C06.R6', 'func:force-multi')
+V('C06', 'eq-multi-operands-narrow', K, KM + 'extract_filters',
+  '            if op_card.is_multi():\n                pass\n\n            elif (', '            if (', 'C06.R6', 'filters:multi-operands')
+V('C06', 'rhs-multi-narrows', K, KM + 'extract_filters',
+  '''                if infer_cardinality(
+                    right, scope_tree=scope_tree, ctx=ctx,
+                ).is_single():''', '''                if infer_cardinality(
+                    right, scope_tree=scope_tree, ctx=ctx,
+                ) is not None:''', 'C06.R6', 'filters:single-rhs')
+V('C06', 'non-exclusive-ptr-narrows', K, KM + 'extract_exclusive_filters',
+  '            if _all_have_exclusive([ptr], ctx):', '            if _all_have_exclusive(ptrs[1:], ctx):', 'C06.R6', 'exclusive:ptr-needs-constraint')
+V('C06', 'except-constraint-counts', K, KM + 'get_object_exclusive_constraints',
+  '            and not constr.get_except_expr(schema)\n', '', 'C06.R6', 'exclusive:except-constraints-ignored')
+V('C06', 'partial-compound-constraint', K, KM + 'get_object_exclusive_constraints',
+  'if pointer_refs.issubset(ptr_set):', 'if pointer_refs & ptr_set:', 'C06.R6', 'exclusive:all-pointers-filtered')
+V('C06', 'setfunc-unique', M, MM + '__infer_func_call',
+  '''        # and the maximum multiplicity cannot be inferred.
+        return DUPLICATE''', '''        # and the maximum multiplicity cannot be inferred.
+        return _max_multiplicity(args_mult)''', 'C06.R6', 'M:func:set-returning')
+V('C06', 'if-multi-cond', M, MM + '__infer_oper_call',
+  '        if cards[1].is_single():', '        if cards[0].is_single():', 'C06.R6', 'M:oper:if-multi-condition')
+V('C06', 'plus-two-multi-unique', M, MM + '__infer_oper_call',
+  'if len([card for card in cards if card.is_multi()]) > 1:', 'if len([card for card in cards if card.is_multi()]) > 2:', 'C06.R6', 'M:oper:plus-two-multi')
+V('C06', 'plain-property-unique', M, MM + '_infer_set_inner',
+  '''                    path_mult = UNIQUE
+                else:
+                    path_mult = DUPLICATE''', '''                    path_mult = UNIQUE
+                else:
+                    path_mult = UNIQUE''', 'C06.R6', 'M:set:plain-property')
+V('C06', 'const-set-repeat-unique', M, MM + '__infer_const_set',
+  '    if len(ir.elements) == len(els):\n        return UNIQUE\n    else:\n        return DUPLICATE', '    if len(ir.elements) == len(els):\n        return UNIQUE\n    else:\n        return UNIQUE', 'C06.R6', 'M:const-set')
+V('C06', 'for-duplicate-iter', M, MM + '_infer_for_multiplicity',
+  '    elif itmult.is_duplicate():\n        return DUPLICATE\n', '    elif itmult.is_duplicate() and not result_mult.disjoint_union:\n        return DUPLICATE\n', 'C06.R6', 'M:for:duplicate-iterator')
+# ---- R7 ---------------------------------------------------------------------
+V('C06', 'coalesce-eq-as-eq', K, KM + 'extract_filters',
+  "if str(expr.func_shortname) == 'std::=':", "if str(expr.func_shortname) in ('std::=', 'std::?='):", 'C06.R7', 'key-equality-operators')
+V('C06', 'or-as-and', K, KM + 'extract_filters',
+  "elif str(expr.func_shortname) == 'std::AND':", "elif str(expr.func_shortname) in ('std::AND', 'std::OR'):", 'C06.R7', 'conjunction-operators')
+V('C06', 'union-children-only', M, MM + '__infer_oper_call',
+  '(t,) + tuple(t.descendants(ctx.env.schema))', '(t,) + tuple(t.children(ctx.env.schema))', 'C06.R7', 'lineage-is-transitive')
+V('C06', 'union-scalars-disjoint', M, MM + '__infer_oper_call',
+  '        else:\n            types_disjoint = False', '        else:\n            types_disjoint = True', 'C06.R7', 'scalars-not-disjoint')
+# negative controls: equivalent restructurings
+V('C06', 'neg-limit-restructured', K, KM + '__infer_select_stmt',
+  '''    if ir.limit is not None:
+        if (
+            isinstance(ir.limit.expr, irast.IntegerConstant)
+            and ir.limit.expr.value == '1'
+        ):
+            # Explicit LIMIT 1 clause.
+            stmt_card = _bounds_to_card(
+                _card_to_bounds(stmt_card).lower, CB_ONE)
+        elif (
+            not isinstance(ir.limit.expr, irast.IntegerConstant)
+            or ir.limit.expr.value == '0'
+        ):
+            # LIMIT 0 or a non-static LIMIT that could be 0
+            stmt_card = _bounds_to_card(
+                CB_ZERO, _card_to_bounds(stmt_card).upper)
+''', '''    limit = ir.limit
+    if limit is not None:
+        static = isinstance(limit.expr, irast.IntegerConstant)
+        if not static:
+            stmt_card = _bounds_to_card(
+                CB_ZERO, _card_to_bounds(stmt_card).upper)
+        elif limit.expr.value == '1':
+            stmt_card = _bounds_to_card(
+                _card_to_bounds(stmt_card).lower, CB_ONE)
+        elif limit.expr.value == '0':
+            stmt_card = _bounds_to_card(
+                CB_ZERO, _card_to_bounds(stmt_card).upper)
+''', None)
+V('C06', 'neg-insert-branches-swapped', K, KM + '__infer_insert_stmt',
+  '''    if not ir.on_conflict:
+        return ONE
+    # ... except if UNLESS CONFLICT is used
+    else:
+        return _infer_on_conflict_cardinality(
+            ir.on_conflict,
+            type_has_rewrites=bool(ir.write_policies),
+            scope_tree=scope_tree,
+            ctx=ctx,
+        )''', '''    if ir.on_conflict:
+        return _infer_on_conflict_cardinality(
+            ir.on_conflict,
+            type_has_rewrites=bool(ir.write_policies),
+            scope_tree=scope_tree,
+            ctx=ctx,
+        )
+    return ONE''', None)
+V('C06', 'neg-rhs-single-early-exit', K, KM + 'extract_filters',
+  '''                if infer_cardinality(
+                    right, scope_tree=scope_tree, ctx=ctx,
+                ).is_single():''', '''                rc = infer_cardinality(
+                    right, scope_tree=scope_tree, ctx=ctx,
+                )
+                if not rc.is_single():
+                    return []
+                if True:''', None)
